@@ -610,8 +610,9 @@ func (e IbcEngine) attributeEth(r *Run, oc *TxOutcome, f *ibcTxFact, sender comm
 			// WFX is burnt, the backing FX leaves the WFX contract (and is escrowed by ICS-20)
 			st.addERC(token, sender, ibcNeg(amount), true)
 			st.addFX(st.WFX, ibcNeg(amount))
-			// BaseCoinToIBCCoin burns the sender's FX and pays the same amount out of the transfer module account
-			st.addFX(common.BytesToAddress(authtypes.NewModuleAddress(transfertypes.ModuleName)), ibcNeg(amount))
+			// the FX travels as it is (fix b1a0ac0: before it, BaseCoinToIBCCoin burnt the sender's FX and paid the same
+			// amount out of the transfer module account, which the ledger used to mirror): whatever FX the transfer
+			// module account itself holds is not touched
 		} else {
 			// native ERC-20 pair: tokens are escrowed by the erc20 module
 			st.addERC(token, sender, ibcNeg(amount), false)
